@@ -23,12 +23,12 @@ NoProg == [code |-> <<I("R", N, "", 0, 0)>>, h |-> << <<>> >>]
 
 TInit ==
   /\ l = 1 /\ dec = FALSE
-  /\ body = NoBody /\ prog = NoProg
+  /\ body = NoBody /\ prog = NoProg /\ wr = "none"
   /\ ops = <<>> /\ po = <<>> /\ co = <<>>
   /\ pm = Fresh /\ cm = Fresh
   /\ excl = FALSE /\ post = 0 /\ n = 0 /\ fin = FALSE
 
-Keep == UNCHANGED <<body, cm, co, post, fin>>
+Keep == UNCHANGED <<body, cm, co, post, fin, wr>>
 
 InsOf(r) == I(r.op, r.a, r.b, r.t, r.u)
 ProgOf(e) == [code |-> [i \in 1..Len(e.code) |-> InsOf(e.code[i])],
